@@ -272,11 +272,16 @@ func (p *Pool) Put(x any) {
 		p.real.Put(x)
 		return
 	}
-	if PoolIsPoint {
-		sched.Point("Pool.Put", nil)
-	}
+	// The scheduling point of Put comes AFTER its effect (see the end of this function): what the
+	// caller did to the object before giving it up cannot be seen by anyone else, but whatever it
+	// still does with it afterwards races with the next holder - so the interesting place to switch
+	// threads is right after the object went back. (Code between two points is assumed to touch
+	// only thread-local state; a use-after-Put breaks exactly that assumption.)
 	p.sync()
 	if x == nil {
+		if PoolIsPoint {
+			sched.Point("Pool.Put", nil)
+		}
 		return
 	}
 	if Debug {
@@ -294,6 +299,9 @@ func (p *Pool) Put(x any) {
 		}
 	}
 	p.items = append(p.items, x)
+	if PoolIsPoint {
+		sched.Point("Pool.Put", nil)
+	}
 }
 
 // ---- Map ---------------------------------------------------------------------------------
